@@ -125,7 +125,11 @@ def analyse(sh, items):
         return
     ref = gnuref.objdump([d[0] for d in dec])
     for (b, cls, ins), (rl, rt) in zip(dec, ref):
-        if gnuref.superfluous_prefix(rt) or rl > len(b) or rl == 0 or rl != ins.l:
+        # the statement is about what miasmX decodes "under operand-size and address-size prefixes": an operand/address-size
+        # prefix the reference prints as a stand-alone data16/addr16 token (it has no effect on e.g. int, hlt, jcc rel8) is
+        # inside the quantifier; other meaning-free prefixes and rejected decodes are not
+        rt_ = re.sub(r'^(data16|addr16)\s+', '', re.sub(r'^(data16|addr16)\s+', '', rt))
+        if gnuref.superfluous_prefix(rt_) or rl > len(b) or rl == 0 or rl != ins.l:
             sh.counters['outside_quantifier_or_length_mismatch(C01)'] += 1
             continue
         mname = ins.m.name
